@@ -22,7 +22,10 @@
 EXTENDS Integers, Sequences, TLC, Json, IOUtils
 IAbs(n) == IF n < 0 THEN -n ELSE n
 Rich(ev) == IAbs(ev.fd1 - ev.fd2)
-Kink(ev) == Rich(ev) > 20000
+\* asym1, asym2: forward minus backward quotient at the two steps.  For a smooth function it shrinks with the step (about halves);
+\* if it is above 1 % and does not shrink, the one-sided derivatives differ AT the input: the input sits on a kink
+KinkAtInput(ev) == ev.asym2 > 10000 /\ 4 * ev.asym2 > 3 * ev.asym1
+Kink(ev) == Rich(ev) > 20000 \/ KinkAtInput(ev)
 GradOK(ev) == /\ ev.reaches
               /\ ev.finite
               /\ (Kink(ev) \/ IAbs(ev.gd - ev.fd2) <= 2 * Rich(ev) + (IF ev.pw THEN 30000 ELSE 500) + ev.noise)
